@@ -20,3 +20,9 @@ package types
 //@   ensures formula: r == randOf(p)
 //@   nopanic
 //@ end
+
+// genesis validation walks the height keys of the pending-request map (inlined into InitGenesis)
+//@ func ValidateGenesis(data)
+//@   inline
+//@   invariant #1 pos: 0 <= mr_idx && mr_idx <= mr_n
+//@ end
